@@ -657,3 +657,18 @@ package client
 //@           state.Locked[old(len(state.Locked))].ID == *id && len(state.Locked[old(len(state.Locked))].IndexMap) == 0 &&
 //@           len(state.Locked[old(len(state.Locked))].Bals) == len((*alloc).Balances) &&
 //@           forall a int :: 0 <= a && a < len((*alloc).Balances) ==> val(state.Locked[old(len(state.Locked))].Bals[a]) == balSum((*alloc).Balances[a])
+
+// fundChannel: a ledger channel is funded with exactly the proposal's funding agreement (not, e.g., its initial balances); sub- and
+// virtual channels are funded through their parent with exactly this proposal and channel.
+//@ func (*Client).fundSubchannel
+//@   trusted
+//@   requires c != nil
+//@ func (*Client).fundVirtualChannel
+//@   trusted
+//@   requires c != nil
+//@ func (*Client).fundChannel
+//@   requires c != nil && c.log != nil && c.funder != nil && chanOK(ch) && ctx != nil && prop != nil && propDecoded(prop)
+//@   modifies *
+//@   callsite (*Client).fundLedgerChannel : ch == old(ch) && istype(prop, "*LedgerChannelProposalMsg") && agreement == as(prop, "*LedgerChannelProposalMsg").FundingAgreement
+//@   callsite (*Client).fundSubchannel : subChannel == ch && prop != nil
+//@   callsite (*Client).fundVirtualChannel : virtual == ch && prop != nil
